@@ -578,6 +578,14 @@ func condString(v ssa.Value, depth int) string {
 		return x.Name()
 	case *ssa.MakeMap:
 		return "makemap"
+	case *ssa.Slice:
+		return condString(x.X, depth+1) + "[:]"
+	case *ssa.FreeVar:
+		return x.Name()
+	case *ssa.IndexAddr:
+		return condString(x.X, depth+1) + "[i]"
+	case *ssa.Index:
+		return condString(x.X, depth+1) + "[i]"
 	}
 	return "_"
 }
